@@ -1508,6 +1508,22 @@ def gated():
         rel(b, "Update", 2)
         b.adv(1)
         out.append(b.tag("stop", "gate").build())
+        # (1b) inbound FSM held in GetCapabilities (still Active) while the outbound connection becomes Established;
+        # it is stopped all the same; after it has gone, a further inbound connection is refused
+        if how == "close":
+            for tail in ("eof", "none"):
+                b = Sb("gate-getcaps-est-%s" % tail, [peer(gates=["GetCapabilities#2"])])
+                b.start()
+                co = b.dial_ok()
+                ci = b.connect()
+                b.open(co).ka(co).upd(co)
+                rel(b, "GetCapabilities", 2)
+                b.adv(1)
+                if tail == "eof":
+                    b.rclose(ci)
+                ci2 = b.connect()
+                b.open(ci2).ka(ci2).upd(co).adv(1)
+                out.append(b.tag("gate", "collision").build())
         # (3b)/(4b) the held callback takes seconds (virtual time passes) while the stop waits for it: the stop
         # still returns only after everything is torn down; a callback that writes after the stop request does
         # not block
@@ -1661,7 +1677,8 @@ def trailing():
     out = []
     bad_marker = [0xFF] * 15 + [0x00, 0, 19, 4]
     tails = {"badmarker": bad_marker, "badlen": [0xFF] * 16 + [0, 5, 4], "badtype": frame(9, []), "ka": keepalive(),
-             "upd": update([0, 0, 0, 0]), "partial": [0xFF] * 10, "notif": notification(6, 0), "two": keepalive() + bad_marker}
+             "upd": update([0, 0, 0, 0]), "partial": [0xFF] * 10, "notif": notification(6, 0), "two": keepalive() + bad_marker,
+             "kabody": frame(4, [1, 2, 3]), "bigupd": update([7] * 4077)}
     for st in STATES:
         enders = {"notif": notification(3, 1), "cease": notification(6, 2), "hdr": [0] * 19}
         if st == "openSent":
